@@ -17,7 +17,7 @@ for c in m["checks"]:
         pid, c["level_claimed"]["category"], cov.get("discharged", "-"), cov.get("obligations", "-"),
         ", ".join(axs) if axs else "none (closed)", ", ".join(f.replace("Properties_", "").replace(".v", "") for f in files),
         cov.get("evaluations", "-"), e["wall_s"], e["tier"]))
-table = ("| property | level | theorems discharged | axioms (Print Assumptions) | Properties files | cases run against the implementation | wall |\n"
+table = ("| property | level | obligations discharged (theorems and examples of the Properties files + the table lemmas behind them) | axioms (Print Assumptions) | Properties files | cases run against the implementation | wall |\n"
          "|---|---|---|---|---|---|---|\n" + "\n".join(rows) + "\n")
 p = "/verif/DESIGN.md"
 s = open(p).read()
